@@ -465,31 +465,38 @@ def mediaForbidden : List Cps :=
   [CssVerif.Proto.cps "@charset ", CssVerif.Proto.cps "@font-face", CssVerif.Proto.cps "@import",
    CssVerif.Proto.cps "@namespace", CssVerif.Proto.cps "@variables"]
 
-/-- one token of the block of an `@media` rule: COMMENT, the at-rule productions and `ruleset`
-(`cssmediarule.py:163-225`); `nested` parses an `@media` inside `@media` -/
+/-- what `atrule` / `ruleset` of the `@media` block do with the collected statement `stmt`
+(`cssmediarule.py:171-220`); `nested` parses an `@media` inside `@media` -/
+def mediaStmtEffect (O : Oracle) (ns : List (Cps × Cps)) (nested : List Tok → Option Rule)
+    (acc : List Rule) (t : Tok) (stmt : List Tok) : List Rule :=
+  match t.typ with
+  | .charsetSym | .fontFaceSym | .importSym | .namespaceSym | .pageSym | .mediaSym | .atkeyword =>
+    -- atrule() :181-220 decides by the VALUE of the at-keyword, as written (no normalisation)
+    if mediaForbidden.contains t.val then acc                       -- not allowed here (:190-203)
+    else if t.val = atPage then                                     -- factories (:204-210)
+      (if O.atOk .pageSym true stmt then mediaInsert acc (.at_ .page stmt) else acc)
+    else if t.val = atMedia then
+      (match nested stmt with
+       | some m => mediaInsert acc m
+       | none => acc)
+    else                                                            -- CSSUnknownRule (:211-218)
+      (if unknownOk stmt then mediaInsert acc (.unknown stmt) else acc)
+  | _ =>                                                            -- ruleset (:171-179)
+    match styleRule O ns stmt with
+    | some (sel, items) => mediaInsert acc (.style ns sel items)
+    | none => acc
+
+/-- one token of the block of an `@media` rule: default S / EOF, COMMENT, and the statement productions,
+each of which starts with `self._tokensupto2(tokenizer, token)` (`cssmediarule.py:163-245`) -/
 def mediaStep (O : Oracle) (ns : List (Cps × Cps)) (nested : List Tok → Option Rule)
     (acc : List Rule) (t : Tok) (rest : List Tok) : List Rule × List Tok :=
   match t.typ with
   | .s => (acc, rest)
   | .eof => (acc, rest)
   | .comment => (mediaInsert acc (.comment t), rest)
-  | .charsetSym | .fontFaceSym | .importSym | .namespaceSym | .pageSym | .mediaSym | .atkeyword =>
-    -- atrule() :181-220 decides by the VALUE of the at-keyword, as written (no normalisation)
+  | _ =>
     let r := upto .default (some t) rest
-    if mediaForbidden.contains t.val then (acc, r.2)                -- not allowed here (:190-203)
-    else if t.val = atPage then                                     -- factories (:204-210)
-      (if O.atOk .pageSym true r.1 then (mediaInsert acc (.at_ .page r.1), r.2) else (acc, r.2))
-    else if t.val = atMedia then
-      (match nested r.1 with
-       | some m => (mediaInsert acc m, r.2)
-       | none => (acc, r.2))
-    else                                                            -- CSSUnknownRule (:211-218)
-      (if unknownOk r.1 then (mediaInsert acc (.unknown r.1), r.2) else (acc, r.2))
-  | _ =>                                                            -- ruleset (:171-179)
-    let r := upto .default (some t) rest
-    match styleRule O ns r.1 with
-    | some (sel, items) => (mediaInsert acc (.style ns sel items), r.2)
-    | none => (acc, r.2)
+    (mediaStmtEffect O ns nested acc t r.1, r.2)
 
 /-- `rule.cssText = tokens` for a `CSSMediaRule`.  `fuel` bounds the nesting depth of `@media` inside
 `@media` (each level eats at least its at-keyword; `ts.length + 1` is enough).  A media rule is always
@@ -577,7 +584,56 @@ def replaceNsUri (rules : List Rule) (p u : Cps) : List Rule :=
 /-- is the at-keyword one of `MarginRule.margins` (table passed in: generated from marginrule.py) -/
 def isMargin (margins : List Cps) (t : Tok) : Bool := margins.contains t.val
 
-/-- one token at sheet level: the productions of `_setCssText` (:171-311) -/
+/-- what a statement production does once `self._tokensupto2(tokenizer, token)` has collected the
+statement `stmt` (which starts with `t`): parse it, check the order level, insert, return the new level
+(`cssstylesheet.py:182-316`) -/
+def stmtEffect (O : Oracle) (margins : List Cps) (st : SheetSt) (t : Tok) (stmt : List Tok) : SheetSt :=
+  match t.typ with
+  | .charsetSym =>                                                             -- :182-198
+    if st.expected > 0 then st
+    else if O.atOk .charsetSym false stmt then { sheetInsert st (.at_ .charset stmt) with expected := 1 }
+    else { st with expected := 1 }
+  | .importSym =>                                                              -- :200-215
+    if st.expected > 1 then st
+    else if O.atOk .importSym false stmt then { sheetInsert st (.at_ .import_ stmt) with expected := 1 }
+    else { st with expected := 1 }
+  | .namespaceSym =>                                                           -- :217-246
+    if st.expected > 2 then st
+    else
+      match O.nsInfo stmt with
+      | some (p, u) =>
+        let st1 : SheetSt :=
+          if (nsLookup st.nsmap p).isNone then sheetInsert st (.ns p u stmt)
+          else { st with rules := replaceNsUri st.rules p u }
+        { st1 with nsmap := nsSet st1.nsmap p u, expected := 2 }
+      | none => st                         -- an ignored @namespace keeps `expected`
+  | .variablesSym =>                                                           -- :248-264
+    if st.expected > 2 then st
+    else if O.atOk .variablesSym false stmt then { sheetInsert st (.at_ .variables stmt) with expected := 2 }
+    else { st with expected := 2 }
+  | .fontFaceSym =>                                                            -- :266-272
+    if O.atOk .fontFaceSym false stmt then { sheetInsert st (.at_ .fontface stmt) with expected := 3 }
+    else { st with expected := 3 }
+  | .mediaSym =>                                                               -- :274-280
+    match mediaRule O st.nsmap (stmt.length + 1) stmt with
+    | some m => { sheetInsert st m with expected := 3 }
+    | none => { st with expected := 3 }
+  | .pageSym =>                                                                -- :282-288
+    if O.atOk .pageSym false stmt then { sheetInsert st (.at_ .page stmt) with expected := 3 }
+    else { st with expected := 3 }
+  | .atkeyword =>                                                              -- unknownrule :290-308
+    let st1 : SheetSt :=
+      if isMargin margins t then
+        (if O.atOk .atkeyword false stmt then sheetInsert st (.at_ .margin stmt) else st)
+      else (if unknownOk stmt then sheetInsert st (.unknown stmt) else st)
+    { st1 with expected := max 1 st.expected }
+  | _ =>                                                                       -- ruleset :310-319
+    match styleRule O st.nsmap stmt with
+    | some (sel, items) => { sheetInsert st (.style st.nsmap sel items) with expected := 3 }
+    | none => st                           -- an ignored ruleset keeps `expected`
+
+/-- one token at sheet level: the productions of `_setCssText` (:171-319).  Every statement production
+starts with `self._tokensupto2(tokenizer, token)`. -/
 def sheetStep (O : Oracle) (margins : List Cps) (st : SheetSt) (t : Tok) (rest : List Tok) :
     SheetSt × List Tok :=
   match t.typ with
@@ -585,57 +641,9 @@ def sheetStep (O : Oracle) (margins : List Cps) (st : SheetSt) (t : Tok) (rest :
   | .comment =>                                                                -- COMMENT :176-180
     ({ sheetInsert st (.comment t) with expected := max 1 st.expected }, rest)
   | .eof => (st, rest)                                                         -- default EOF
-  | .charsetSym =>                                                             -- :182-198
+  | _ =>
     let r := upto .default (some t) rest
-    if st.expected > 0 then (st, r.2)
-    else if O.atOk .charsetSym false r.1 then ({ sheetInsert st (.at_ .charset r.1) with expected := 1 }, r.2)
-    else ({ st with expected := 1 }, r.2)
-  | .importSym =>                                                              -- :200-215
-    let r := upto .default (some t) rest
-    if st.expected > 1 then (st, r.2)
-    else if O.atOk .importSym false r.1 then ({ sheetInsert st (.at_ .import_ r.1) with expected := 1 }, r.2)
-    else ({ st with expected := 1 }, r.2)
-  | .namespaceSym =>                                                           -- :217-243
-    let r := upto .default (some t) rest
-    if st.expected > 2 then (st, r.2)
-    else
-      match O.nsInfo r.1 with
-      | some (p, u) =>
-        let st1 : SheetSt :=
-          if (nsLookup st.nsmap p).isNone then sheetInsert st (.ns p u r.1)
-          else { st with rules := replaceNsUri st.rules p u }
-        ({ st1 with nsmap := nsSet st1.nsmap p u, expected := 2 }, r.2)
-      | none => (st, r.2)                  -- an ignored @namespace keeps `expected`
-  | .variablesSym =>                                                           -- :245-261
-    let r := upto .default (some t) rest
-    if st.expected > 2 then (st, r.2)
-    else if O.atOk .variablesSym false r.1 then ({ sheetInsert st (.at_ .variables r.1) with expected := 2 }, r.2)
-    else ({ st with expected := 2 }, r.2)
-  | .fontFaceSym =>                                                            -- :263-269
-    let r := upto .default (some t) rest
-    if O.atOk .fontFaceSym false r.1 then ({ sheetInsert st (.at_ .fontface r.1) with expected := 3 }, r.2)
-    else ({ st with expected := 3 }, r.2)
-  | .mediaSym =>                                                               -- :271-277
-    let r := upto .default (some t) rest
-    match mediaRule O st.nsmap (r.1.length + 1) r.1 with
-    | some m => ({ sheetInsert st m with expected := 3 }, r.2)
-    | none => ({ st with expected := 3 }, r.2)
-  | .pageSym =>                                                                -- :279-285
-    let r := upto .default (some t) rest
-    if O.atOk .pageSym false r.1 then ({ sheetInsert st (.at_ .page r.1) with expected := 3 }, r.2)
-    else ({ st with expected := 3 }, r.2)
-  | .atkeyword =>                                                              -- unknownrule :287-305
-    let r := upto .default (some t) rest
-    let st1 : SheetSt :=
-      if isMargin margins t then
-        (if O.atOk .atkeyword false r.1 then sheetInsert st (.at_ .margin r.1) else st)
-      else (if unknownOk r.1 then sheetInsert st (.unknown r.1) else st)
-    ({ st1 with expected := max 1 st.expected }, r.2)
-  | _ =>                                                                       -- ruleset :307-316
-    let r := upto .default (some t) rest
-    match styleRule O st.nsmap r.1 with
-    | some (sel, items) => ({ sheetInsert st (.style st.nsmap sel items) with expected := 3 }, r.2)
-    | none => (st, r.2)                    -- an ignored ruleset keeps `expected`
+    (stmtEffect O margins st t r.1, r.2)
 
 /-- the state after `_parse` -/
 def sheetLoop (O : Oracle) (margins : List Cps) (st : SheetSt) (ts : List Tok) : SheetSt :=
